@@ -20,16 +20,17 @@ from .render import eval_spec, same_value
 PROP = "C11"
 
 
-def qualifier_atoms(atoms, cond=None):
-    """[(guard, QuoteA)] for quoted atoms directly followed by a '.' literal"""
+def qualifier_atoms(atoms, cond=None, tail_dot=False):
+    """[(guard, QuoteA)] for quoted atoms directly followed by a '.' literal (the literal may have been factored
+    out of a conditional as its common suffix)"""
     out = []
     atoms = list(atoms)
     for i, a in enumerate(atoms):
+        dot = (isinstance(atoms[i + 1], Lit) and atoms[i + 1].s.startswith(".")) if i + 1 < len(atoms) else tail_dot
         if isinstance(a, IteA):
-            out += qualifier_atoms(a.a, a.c if cond is None else z3.And(cond, a.c))
-            out += qualifier_atoms(a.b, z3.Not(a.c) if cond is None else z3.And(cond, z3.Not(a.c)))
-        elif isinstance(a, QuoteA) and i + 1 < len(atoms) and isinstance(atoms[i + 1], Lit) and \
-                atoms[i + 1].s.startswith("."):
+            out += qualifier_atoms(a.a, a.c if cond is None else z3.And(cond, a.c), dot)
+            out += qualifier_atoms(a.b, z3.Not(a.c) if cond is None else z3.And(cond, z3.Not(a.c)), dot)
+        elif isinstance(a, QuoteA) and dot:
             out.append((cond if cond is not None else TRUE, a))
     return out
 
